@@ -24,6 +24,7 @@ from harness import core
 from harness import lib_c02c14 as L
 from harness import lib_c02hist as HI
 from harness import lib_c02types as TY
+from harness import lib_c02adv as ADV
 
 # ------------------------------------------------------------------ (a) ScopeSpace op sequences
 
@@ -342,6 +343,9 @@ def case_worker(task):
 
 def _case_worker(task):
     seed, idx, mode = task
+    mode_full = mode.replace("-noort", "")
+    if mode_full == "typed-thorough":
+        mode = mode.replace("typed-thorough", "typed")
     want_ort = not mode.endswith("-noort")
     mode = mode.replace("-noort", "")
     rng = random.Random(f"{seed}:{idx}")
@@ -352,9 +356,9 @@ def _case_worker(task):
     if mode == "typed":
         # a same-dtype argument whose shape differs from the declared type in exactly one way
         k = idx - 3 * 10**6
-        grid = TY.all_cases() + TY.all_optseq_cases()
+        grid = typed_grid(seed, thorough=(mode_full == "typed-thorough"))
         case = grid[k] if k < len(grid) else TY.gen_case(rng)
-        st, m = TY.build_any(case)
+        st, m = ADV.build_case(case) if case.get("kind") == "adv" else TY.build_any(case)
         out = {"mode": "typed", "case": case, "status": st}
         if st == "ok":
             out["bad"] = TY.judge_built(m)
@@ -388,7 +392,7 @@ def _case_worker(task):
             out["named"] = strip_ops(L.proto_to_named(m.graph))
             out["fnamed"] = [strip_ops(L.func_to_named(f)) for f in m.functions]
             out["walker"] = L.walk_named(L.proto_to_named(m.graph))
-            if mode == "oracle" and not out["bad"] and rng.random() < 0.3:
+            if mode == "oracle" and not out["bad"] and rng.random() < 0.2:
                 # the same program realised once and built several times over the SAME Vars, an Identity of another
                 # opset module on the first output (rising / falling / back to none)
                 tops = rng.choice([[None, 19], [None, 21, None], [21, None], [18, 21], [None, 20, 18], [17, 19, 21]])
@@ -404,6 +408,13 @@ def _case_worker(task):
 
 
 HAND_HIST = HI.HAND_CASES
+
+
+def typed_grid(seed, thorough=False):
+    """The deterministic grids (all cases on every tier): shape-boundary calls, adversarial programs,
+    Optional/Sequence routes."""
+    return TY.all_cases() + ADV.all_cases() + TY.all_optseq_cases()
+
 
 
 def hist_key(bad):
@@ -552,6 +563,31 @@ def corr_inline_check(ck, drv):
                                        "mismatches": mism, "skipped": skipped}
 
 
+def corr_policy(ck, drv):
+    """tie H for Func.policy (= `max_opset_policy`): requirement sets that spell the default domain both ways, with
+    duplicates, in any order - all lists up to length 3 over {"", "ai.onnx"} x {12, 17, 19} plus random longer ones."""
+    from spox._schemas import max_opset_policy
+
+    rng = ck.rng
+    small = [(d, v) for d in ("", "ai.onnx") for v in (12, 17, 19)]
+    cases = [list(c) for n in (0, 1, 2, 3) for c in itertools.product(small, repeat=n)]
+    doms = ["", "ai.onnx", "ai.onnx", "ai.onnx.ml", "dom.a", "ai.onnx.training"]
+    for _ in range(300):
+        cases.append([(rng.choice(doms), rng.randrange(1, 26)) for _ in range(rng.randrange(1, 9))])
+    outs = drv.ask_many("C02", [{"k": "policy", "req": [[d, v] for d, v in c]} for c in cases])
+    mism = 0
+    for c, o in zip(cases, outs):
+        ck.count(None)
+        real = dict(max_opset_policy(set(c)))
+        model = {d: v for d, v in o.get("policy", [["<error>", 0]])}
+        if model != real or len(o.get("policy", [])) != len(model):
+            mism += 1
+            if mism <= 3:
+                ck.broken("correspondence", "C02 max_opset_policy vs Func.policy (two spellings of the default domain)",
+                          f"req={c} model={o} real={real}")
+    ck.cov["opset_policy"] = {"cases": len(cases), "mismatches": mism}
+
+
 def corr_intro_req(ck, drv):
     """tie H for Model/InternalReq.lean: the real `opset_req` of the `_Introduce` node behind `intros(...)` for every
     combination of value kinds (tensor / sequence / optional / optional-of-sequence / untyped) up to length 3."""
@@ -619,7 +655,8 @@ def judge_typed(ck, typed_results):
     best = {}
     for r in typed_results:
         case = r["case"]
-        site = st["by_site"].setdefault(case.get("site") or ("optseq:" + case["route"]), {"raised": 0, "returned": 0})
+        site = st["by_site"].setdefault(case.get("site") or (case["kind"] + ":" + (case.get("what") or case["route"])),
+                                       {"raised": 0, "returned": 0})
         if r["status"] == "err":
             st["raised"] += 1
             site["raised"] += 1
@@ -629,13 +666,20 @@ def judge_typed(ck, typed_results):
         site["returned"] += 1
         ck.count(("typed", json.dumps(case, sort_keys=True)))
         if r["bad"]:
-            key = TY.classify(case, r["bad"])
+            key = ADV.classify(case, r["bad"]) if case.get("kind") == "adv" else TY.classify(case, r["bad"])
             cur = best.get(key)
-            if cur is None or len(json.dumps(case)) < len(json.dumps(cur[0])):
+            # (fewest model inputs first: with one input the replay does not depend on the traversal order of a set)
+            size = lambda c: (c.get("nin", 0), len(json.dumps(c)))  # noqa: E731
+            if cur is None or size(case) < size(cur[0]):
                 best[key] = (case, r["bad"])
         else:
             st["returned_valid"] += 1
     for key, (case, bad) in list(best.items())[:4]:
+        if case.get("kind") == "adv":
+            ck.failure(key, f"an adversarial program ({case['what']}, drop_unused_inputs={case['drop']}, route "
+                            f"{case['route']}, {case['nin']} inputs) was built into a model that fails: {bad[:2]}",
+                       {"typed": case})
+            continue
         if case.get("kind") == "optseq":
             ck.failure(key, f"an Optional/Sequence-typed value ({case['make']}) routed through {case['route']} "
                             f"(module v{case.get('ver')}, companion {case.get('comp')}) was built into a model that "
@@ -845,6 +889,11 @@ def run(ck: core.Check):
     # (e) opset requirement of the internal forwarding operator; Identity's type support from onnx.defs (tie G)
     if drv is not None:
         try:
+            corr_policy(ck, drv)
+        except Exception as e:  # noqa: BLE001
+            ck.broken("correspondence", "C02 max_opset_policy not observable", f"{type(e).__name__}: {e}")
+    if drv is not None:
+        try:
             with warnings.catch_warnings():
                 warnings.simplefilter("ignore")
                 corr_intro_req(ck, drv)
@@ -852,13 +901,14 @@ def run(ck: core.Check):
             ck.broken("correspondence", "C02 internal operator opset_req not observable", f"{type(e).__name__}: {e}")
 
     # generated programs (oracle on all; naming correspondence on the 'naming' slice)
-    n_oracle = pick(1600, 12000)
-    n_naming = pick(500, 5000)
-    n_hist = pick(260, 1500)
-    n_typed = len(TY.all_cases()) + len(TY.all_optseq_cases()) + pick(200, 2000)
+    n_oracle = pick(1300, 12000)
+    n_naming = pick(350, 5000)
+    n_hist = pick(200, 1500)
+    tmode = "typed-thorough" if ck.thorough else "typed"
+    n_typed = len(typed_grid(ck.seed, ck.thorough)) + pick(60, 2000)
     tasks = ([(ck.seed, i, "oracle") for i in range(n_oracle)] + [(ck.seed, 10**6 + i, "naming") for i in range(n_naming)]
              + [(ck.seed, 2 * 10**6 + i, "hist") for i in range(n_hist)]
-             + [(ck.seed, 3 * 10**6 + i, "typed") for i in range(n_typed)])
+             + [(ck.seed, 3 * 10**6 + i, tmode) for i in range(n_typed)])
     results = L.robust_map(case_worker, tasks, min(14, mp.cpu_count()), core.WORK)
     # a case on which the worker process died (C++ abort inside a third-party judge): judged again without
     # loading it into onnxruntime; recorded in the evidence
@@ -1052,7 +1102,7 @@ def replay(ck: core.Check, doc) -> bool:
             failing |= bool(rec["bad"])
         return failing
     if case.get("typed") is not None:
-        st, m = TY.build_any(case["typed"])
+        st, m = ADV.build_case(case["typed"]) if case["typed"].get("kind") == "adv" else TY.build_any(case["typed"])
         if st == "err":
             print("build raised:", m)
             return False
